@@ -72,7 +72,8 @@ def build_dexes(prog, split):
                 ret, params = parse_desc("(" + desc)
                 body, _ = method_code(m["code"])
                 dm.append(dict(name=mname, ret=ret, params=params, flags=9, code=dict(regs=2 + len(params) * 2, ins=sum(2 if p in "JD" else 1 for p in params), outs=2, insns=body)))
-            classes.append(dict(name=c["name"], super=OBJ, flags=1, sfields=[(fn, ft, 9) for (fn, ft) in c["fields"]], ifields=[], dmethods=dm, vmethods=[]))
+            # (the kind of class does not matter to cross-references: interfaces carry code too -- <clinit>, static and default methods)
+            classes.append(dict(name=c["name"], super=OBJ, flags=c.get("flags", 1), sfields=[(fn, ft, 9) for (fn, ft) in c["fields"]], ifields=[], dmethods=dm, vmethods=[]))
         out.append(Dex(classes).build())
     return out
 
@@ -246,8 +247,9 @@ def concretise(tprog, i):
             return dict(op=op, cls="", name="q%d:%s" % (i, name))
         return dict(op=op, cls=cname[cls], name="")
     code = {k: [conv(dict(x)) for x in v] for k, v in tprog.items()}
-    return dict(ns=ns, classes=[dict(name=cname["A"], fields=[("f", ftype)] + [("f", t) for t in decoys], methods=[dict(name="m()V", code=code[("A", "m")])]),
-                                 dict(name=cname["B"], fields=[("g", ftype)] + [("g", t) for t in decoys], methods=[dict(name="n()V", code=code[("B", "n")])])])
+    kinds = [(1, 1), (0x601, 1), (1, 0x411), (0x601, 0x4031)][(i // 3) % 4]       # public class / interface / abstract final-less class / enum
+    return dict(ns=ns, classes=[dict(name=cname["A"], flags=kinds[0], fields=[("f", ftype)] + [("f", t) for t in decoys], methods=[dict(name="m()V", code=code[("A", "m")])]),
+                                 dict(name=cname["B"], flags=kinds[1], fields=[("g", ftype)] + [("g", t) for t in decoys], methods=[dict(name="n()V", code=code[("B", "n")])])])
 
 
 def random_program(rnd, i, max_classes):
@@ -267,7 +269,7 @@ def random_program(rnd, i, max_classes):
             if m["name"] not in seen:
                 seen.add(m["name"])
                 ms.append(m)
-        classes.append(dict(name=cn, fields=fields, methods=ms))
+        classes.append(dict(name=cn, flags=rnd.choice([1, 1, 1, 0x601, 0x401, 0x11, 0x4031, 0x2601]), fields=fields, methods=ms))
     allm = [(c["name"], m["name"]) for c in classes for m in c["methods"]]
     allf = [(c["name"], f) for c in classes for f in c["fields"]]
     inv_kinds = ["invoke-virtual", "invoke-super", "invoke-direct", "invoke-static", "invoke-interface"]
